@@ -92,7 +92,17 @@ def doc_order(root):
 
 
 def run_plan(xml, plan):
-    """returns (root, keep) - the tree reached; every node object ever seen is kept alive"""
+    """returns (root, keep) - the tree reached; every node object ever seen is kept alive.
+    xml may also be 'loose:comment', 'loose:pi', 'loose:text' (a parentless node, a one-node tree) or 'loose:tag'"""
+    if xml.startswith("loose:"):
+        kind = xml[6:]
+        node = {"comment": lambda: new_comment_node("cc"), "pi": lambda: new_processing_instruction_node("tt", "pp"),
+                "text": lambda: TextNode("solo"), "tag": lambda: new_tag_node("n")}[kind]()
+        if kind == "tag":
+            with altered_default_filters():
+                node.append_children("a", new_comment_node("c"), tag("x"), "b")
+                node[2].append_children(TextNode("u"), TextNode("v"))
+        return node, [node]
     doc = Document(xml)
     keep = [doc]
     loose = []
@@ -157,8 +167,14 @@ class Dump:
         self.ids = {}
         self.objs = []
         self.ok = True
+        self.loose_text = isinstance(root, TextNode)
         with altered_default_filters():
-            self.cel = self._el(root)
+            if self.loose_text:                   # a DETACHED text node is a tree of one node
+                if root._position is not DETACHED or root.content == "":
+                    self.ok = False
+                self.cel = "(Build_tobj %d %s)" % (self.mid(root), cstr(root.content))
+            else:
+                self.cel = self._el(root)
             self.order = list(self.objs)
             self.tree = self._tree(root)          # through the public API only
         self.itree = self._itree(self.tree)
@@ -332,6 +348,12 @@ def ancestors_of(idx, i):
 
 def classify(finding, case):
     """is the failing case inside the class of the listed finding?"""
+    if finding["cls"] == "parentless-childless-depth":
+        # depth of a comment / PI node without parent raises AttributeError
+        if case.get("routine") not in ("depth",):
+            return False
+        t = case["tree"]
+        return case["node"] == t[0] and t[1] in ("comment", "pi") and case.get("impl") == [2, 3]
     if finding["cls"] == "falsy-ancestor":
         # iterate_ancestors stops at the first ancestor that has no child matching the ambient filter
         # (`if parent:` is len(parent) != 0 under default_filters[-1]); depth of a tag node likewise
@@ -409,7 +431,7 @@ def check_trees(ctx, cases):
                 ctx.count(1, "outside-domain(empty text object)")
                 continue
             tags = [i for i, o in enumerate(d.order) if isinstance(o, TagNode)]
-            to_sort = [tags[(case["seed"] * 7 + 3 * k) % len(tags)] for k in range(min(5, len(tags) + 1))]
+            to_sort = [tags[(case["seed"] * 7 + 3 * k) % len(tags)] for k in range(min(5, len(tags) + 1))] if tags else []
             fs = [d.members(F) for _, F in PASSED]
             per_amb = []
             for name, amb, strict in AMBIENT:
@@ -417,7 +439,10 @@ def check_trees(ctx, cases):
                 real = real_frames(d, amb, to_sort)
                 args = "%s [%s] %s %s" % (ilist(members), "; ".join(ilist(f) for f in fs),
                                           ilist(range(len(d.order))), ilist(to_sort))
-                terms.append("c_dump %s %s" % (d.cel, args))
+                if d.loose_text:
+                    terms.append("c_dump_loose_text %s %s [%s]" % (d.cel, ilist(members), "; ".join(ilist(f) for f in fs)))
+                else:
+                    terms.append("c_dump %s %s" % (d.cel, args))
                 terms.append("a_dump %s %s" % (d.itree, args))
                 per_amb.append((name, strict, members, real))
             prepared.append((case, d, keep, per_amb))
@@ -458,6 +483,12 @@ FINDING_XML = '<r><a><!--c--></a></r>'
 
 def replay_open(f):
     w = f["witness"]
+    if "python" in w:
+        try:
+            exec(w["python"], {})
+        except Exception as e:  # noqa: BLE001
+            return type(e).__name__ == w.get("raises")
+        return False
     doc = Document(w["xml"])
     with altered_default_filters():
         node = doc_order(doc.root)[w["node"]]
@@ -482,14 +513,15 @@ def run(ctx, args):
         return ctx.finish("replay of " + args.replay, replay_open=replay_open)
     quick = ctx.tier == "quick"
     cases = [{"xml": x, "plan": [], "seed": i} for i, x in enumerate(DOCS)]
-    for i in range(26 if quick else 900):
+    cases += [{"xml": "loose:" + k, "plan": [], "seed": 0} for k in ("comment", "pi", "text", "tag")]
+    for i in range(26 if quick else 420):
         cases.append({"xml": ctx.rng.choice(DOCS), "plan": gen_plan(ctx.rng, ctx.rng.randint(1, 8)),
                       "seed": ctx.rng.randint(0, 10 ** 6)})
     step = 60
     for s in range(0, len(cases), step):
         check_trees(ctx, cases[s:s + step])
     return ctx.finish(
-        rule="trees: %d parsed documents + trees reached by random histories of 1-8 public-API edits (append/prepend/"
+        rule="trees: %d parsed documents + parentless comment / PI / text node / element + trees reached by random histories of 1-8 public-API edits (append/prepend/"
              "insert/add_following/add_preceding/detach/replace/merge_text_nodes with strings, TextNodes, tags, comments, "
              "PIs, tag() definitions, re-attached detached subtrees); on every node: 23 navigation routines under 6 ambient "
              "filters x 5 passed filters, all indices -(k+1)..k and 6 slices; correspondence against Conc/CNav.v for all, "
